@@ -2,6 +2,7 @@ import Ts.Kahn
 import Ts.KahnComplete
 import Ts.Refine
 import Ts.CycleSound
+import Ts.Build
 
 /-! # C15 — property theorems (statements only; proofs live in the family libraries) -/
 
@@ -103,6 +104,34 @@ theorem cycleAnswerOK_sound :
 theorem closedCheck_sound :
     ∀ (g : Ts.G) (h : Ts.closedCheck g = true), g.Closed :=
   @Ts.closedCheck_sound
+end
+
+section
+open Kahn Ts
+
+/-- graphs built by AddNode/AddEdge (all nodes, then the edges) from distinct nodes and distinct edges between them meet
+the premises of the refinement theorems, have exactly these nodes and exactly these edges -/
+theorem buildG_premises :
+    ∀ (nodes : List Nat) (edges : List Edge) (hn : nodes.Nodup) (he : edges.Nodup)
+    (hv : ∀ e ∈ edges, e.1 ∈ nodes ∧ e.2 ∈ nodes),
+    WFG (buildG nodes edges) ∧ WellRanked (buildG nodes edges) (buildG nodes edges).edges [] ∧
+    (buildG nodes edges).nodes = nodes ∧ (buildG nodes edges).edges.Perm edges :=
+  @Ts.buildG_premises
+
+/-- C15 on the concrete model with no premise left: success = duplicate-free list of exactly the nodes, every edge forward -/
+theorem buildG_toposort_sound :
+    ∀ (nodes : List Nat) (edges : List Edge) (hn : nodes.Nodup) (he : edges.Nodup)
+    (hv : ∀ e ∈ edges, e.1 ∈ nodes ∧ e.2 ∈ nodes) (L : List Nat)
+    (h : (buildG nodes edges).toposort = some (L, true)),
+    L.Nodup ∧ (∀ x, x ∈ L ↔ x ∈ nodes) ∧ ∀ e ∈ edges, Before L e.1 e.2 :=
+  @Ts.buildG_toposort_sound
+
+/-- … and success if and only if the graph is acyclic -/
+theorem buildG_toposort_iff :
+    ∀ (nodes : List Nat) (edges : List Edge) (hn : nodes.Nodup) (he : edges.Nodup)
+    (hv : ∀ e ∈ edges, e.1 ∈ nodes ∧ e.2 ∈ nodes),
+    (∃ L, (buildG nodes edges).toposort = some (L, true)) ↔ Ranked edges :=
+  @Ts.buildG_toposort_iff
 end
 
 end Props.C15
